@@ -294,10 +294,9 @@ class Kernel:
         if me is None or not self.active:
             raise RuntimeError("block() outside simulation")
         if pred():
-            self.point(why)
-            return True
+            return True  # no yield here: callers complete their atomic action, then call point()
         if timeout is not None and timeout <= 0:
-            self.point(why)
+            self.point(why)  # a failed poll: nothing atomic follows, and spin loops must yield
             return bool(pred())
         self._advance()
         me.pred = pred
@@ -421,6 +420,7 @@ def _t_join(self, timeout=None):
             return  # simulated thread after the simulation ended: never block for real
         return _real_join(self, timeout)
     k.block(lambda: r.done, timeout, "join")
+    k.point("joined")
 
 
 def _t_is_alive(self):
@@ -456,6 +456,7 @@ class SimLock:
             return False
         self.owner = me
         self.count = 1
+        k.point("locked")
         return True
 
     def release(self):
@@ -541,6 +542,7 @@ class SimCondition:
         k.block(lambda: lk.owner is None, None, "condreacq")
         lk.owner = _thread.get_ident()
         lk.count = max(cnt, 1)
+        k.point("condwake")
         return ok
 
     def wait_for(self, predicate, timeout=None):
@@ -639,7 +641,9 @@ class SimQueue:
         ok = k.block(lambda: bool(self.q), timeout, "qget")
         if not ok:
             raise _queue.Empty
-        return self.q.popleft()
+        x = self.q.popleft()
+        k.point("qgot")
+        return x
 
     def get_nowait(self):
         return self.get(block=False)
